@@ -17,7 +17,9 @@ columns go through logscale_to_tolerance with objective_tolerance, reservation c
 multi_round with the resource tolerances, diff (fused-loop) columns through nothing, and each rounding
 helper returns its input unchanged at tolerance 0; (C4) lock-step: every branch appends exactly one
 column and one goal ('min' for objective/reservation columns, 'diff' for fused-loop tile-shape
-columns), so a goal can never be applied to another column; fused-loop columns are added to the diff set.
+columns), so a goal can never be applied to another column; fused-loop columns are added to the diff set;
+(C5) the duplicate test of the filter runs over the full table, 'diff' columns included, so equal objectives
+never merge rows with different fused-loop tile shapes.
 """
 
 DC = "accelforge/mapper/FFM/_pareto_df/df_convention.py"
@@ -203,13 +205,26 @@ def _c3_c4(ctx):
     ctx.floor(R, 6)
 
 
+def _c5(ctx):
+    R = "C12-C5"
+    ctx.doc(R, "rows are merged as duplicates only when equal in every column handed to the filter, the 'diff' (fused-loop tile shape / compatibility) columns included")
+    from . import c11
+    fm = ctx.func(c11.FP, "fast_pareto_mask", R)
+    dups = fm.calls("duplicated")
+    ctx.require(len(dups) >= 1, R, "duplicated() call in fast_pareto_mask")
+    c11._n8_full_rows(ctx, fm, dups, R)
+    ctx.floor(R, 3)
+
+
 def check(ctx):
     _c1(ctx)
     _c2(ctx)
     _c3_c4(ctx)
+    _c5(ctx)
 
 
 VARIANTS = [
+    {"kind": "F", "name": "dedup-ignores-diff-columns", "rule": "C12-C5", "edits": [("accelforge/mapper/FFM/_pareto_df/fast_pareto.py", "            pareto_rows = data[pareto_idx]", "            pareto_rows = eff_data[pareto_idx]")]},
     {"kind": "F", "name": "reservation-5-parts", "rule": "C12-C1", "edits": [(DC, 'return f"reservation<SEP>{name}<SEP>{nloops}<SEP>" + ("left" if left else "right")', 'return f"reservation<SEP>{name}<SEP>{nloops}<SEP>r<SEP>" + ("left" if left else "right")')]},
     {"kind": "F", "name": "objective-prefix-totals", "rule": "C12-C1", "edits": [(DC, '    return partition_col(c, "Total") is not None', '    return partition_col(c, "Totals") is not None')]},
     {"kind": "F", "name": "objectives-through-multi_round", "rule": "C12-C3", "edits": [(PA, "            to_pareto.append(logscale_to_tolerance(series, objective_tolerance))", "            to_pareto.append(multi_round(series, resource_usage_tolerance, absolute_resource_usage_tolerance))")]},
